@@ -45,6 +45,11 @@ CLAIMED = {
                 "identically by the guest (or both abort); sandbox_reinterpret/const/static_cast on tainted and tainted_volatile sources equal the C++ cast "
                 "on the decoded value and keep pointer addresses - all bit patterns.",
             "Opaque callback results are checked under C12.", "DESIGN.md 4/C20"),
+    "C10": (MC, "memset/memcpy/memcmp (plain and tainted size operands), copy_and_verify_range/_string/_buffer_address, "
+                "unverified_safe_pointer_because, copy_memory_or_grant/deny_access on copy and grant/deny capable model backends: the operation "
+                "proceeds (range event / pointer handed out) only for non-null, non-wrapping ranges wholly inside (sandbox side) or not straddling "
+                "(application side), touches exactly the designated bytes, and a valid non-empty request is not refused - for all starts and all 2^64 extents.",
+            "Loop-bound preconditions: count<=6, first NUL within 7 bytes.", "DESIGN.md 4/C10"),
     "C05": (MC, "p+n, p-n, +=, -=, ++/-- (pre/post), p[n], &p[n] for 8 pointee types x integer index types (plain, tainted, tainted_volatile) on LP32/LP16 "
                 "model backends with symbolic region base, pointer and full-width index: returns iff the exact 128-bit address p+/-n*s_guest is inside "
                 "the region and then returns exactly it, else aborts; null aborts.",
